@@ -227,6 +227,24 @@ func runC12(c *runCfg) error {
 		emit("badlen", cfg, cat(be32b(3), cont), nil)
 		emit("oversize", cfg, cat(be32b(100000), make([]byte, 300)), nil)
 	}
+	// several users connecting to one server, their startup exchanges and queries interleaved
+	rounds := 40
+	if c.tier == "thorough" {
+		rounds = 600
+	}
+	for r := 0; r < rounds; r++ {
+		cfg := cfgs[r%len(cfgs)]
+		nconn := 2 + g.rng.Intn(4)
+		var cases []*caseT
+		for k := 0; k < nconn; k++ {
+			su := startupMsg("user", fmt.Sprintf("user%d", k), "database", fmt.Sprintf("db%d", k%2))
+			cs := lockCase(0, "concurrent", cfg, su, [][]byte{mQuery([]byte("select 1")), mQuery([]byte("select 1")), mTerminate()})
+			cs.id = fmt.Sprintf("%d.%d", id, k)
+			cases = append(cases, cs)
+		}
+		emitMulti(c, "concurrent", cases, g.schedule(cases), false)
+		id++
+	}
 	n := 300
 	if c.tier == "thorough" {
 		n = 8000
@@ -412,6 +430,28 @@ func runC19(c *runCfg) error {
 				}
 			}
 		}
+	}
+	// several connections on one server: every callback must see its own connection's context
+	rounds := 30
+	if c.tier == "thorough" {
+		rounds = 500
+	}
+	for r := 0; r < rounds; r++ {
+		cfg := simpleCfg(256)
+		cfg.params = [][2][]byte{{[]byte("application_name"), []byte("verif")}}
+		for k := g.rng.Intn(3); k > 0; k-- {
+			cfg.mws = append(cfg.mws, true)
+		}
+		cfg.term = g.pick("none", "ok")
+		var cases []*caseT
+		for k := 0; k < 2+g.rng.Intn(3); k++ {
+			su := startupMsg("user", fmt.Sprintf("user%d", k), "database", "db")
+			cs := lockCase(0, "concurrent", cfg, su, [][]byte{mQuery([]byte("select 1")), mParse(nil, []byte("select 1"), 0), mBind(nil, nil, nil, nil, nil), mExecute(nil, 0), mSync(), mTerminate()})
+			cs.id = fmt.Sprintf("%d.%d", id, k)
+			cases = append(cases, cs)
+		}
+		emitMulti(c, "concurrent", cases, g.schedule(cases), false)
+		id++
 	}
 	// terminate inside discard mode, random histories
 	n := 200
